@@ -25,6 +25,7 @@ type caseC06 struct {
 	Mode     string        `json:"mode"`  // marker | size | size+marker | short | surplus
 	Delta    int           `json:"delta"` // for short / surplus
 	ByteSink bool          `json:"bytesink"`
+	Via      string        `json:"via,omitempty"` // see viaWrite
 }
 
 func drawC06(t *rapid.T) caseC06 {
@@ -63,6 +64,7 @@ func drawC06(t *rapid.T) caseC06 {
 		c.Cfg.SizeInHeader, c.Cfg.Size = true, int64(n-c.Delta)
 		c.Cfg.EOSMarker = rapid.Bool().Draw(t, "eos")
 	}
+	c.Via = rapid.SampledFrom(viaKinds).Draw(t, "via")
 	if rapid.IntRange(0, 11).Draw(t, "oddcfg") == 0 {
 		gen.DrawOdd(t, &c.Cfg, "lzma")
 	}
@@ -117,7 +119,7 @@ func runLZMAWrite(c caseC06) (*lzmaRun, *ev.Failure) {
 	}
 	pos := 0
 	for i, l := range c.Part.Split(len(data)) {
-		n, err := w.Write(data[pos : pos+l])
+		n, err := viaWrite(w, data[pos:pos+l], c.Via)
 		wantN := l
 		wantErr := false
 		if limit >= 0 && int64(run.accepted+l) > limit {
@@ -156,7 +158,8 @@ func checkC06(c caseC06, rec *ev.Rec) *ev.Failure {
 	}
 	m := matcherName(c.Cfg.Matcher)
 	lc, lp, _ := c.Cfg.EffProps()
-	rec.Class("mode="+c.Mode, "matcher="+m, "partition="+c.Part.Kind, fmt.Sprintf("bytesink=%v", c.ByteSink))
+	rec.Class("mode="+c.Mode, "matcher="+m, "partition="+c.Part.Kind, fmt.Sprintf("bytesink=%v", c.ByteSink), "write_via="+c.Via,
+		"lzma.Writer_optional_interfaces="+optionalIfaces((*lzma.Writer)(nil)))
 	if lc+lp > 4 {
 		rec.Class("lc+lp>4")
 	}
